@@ -223,14 +223,11 @@ func execTlvSeg(line string) Result {
 		n := len(cols[0][b])
 		ples := make([]*writer.ParsedLogEvent, 0, n)
 		for e := 0; e < n; e++ {
-			// a constant column "k" in every event: a segment whose events so far carry no column at all cannot be
-			// flushed (FlushSegStats: "no segstats to flush"), which is outside this suite
-			vv := make([]writer.VerifVal, len(names)+1)
+			vv := make([]writer.VerifVal, len(names))
 			for i := range names {
 				vv[i] = cols[i][b][e].v
 			}
-			vv[len(names)] = writer.VerifVal{Kind: 's', Str: []byte("v")}
-			ples = append(ples, writer.VerifC01SegPLE(uint64(1000+gi), append(append([]string{}, names...), "k"), vv, &tsKey))
+			ples = append(ples, writer.VerifC01SegPLE(uint64(1000+gi), names, vv, &tsKey))
 			gi++
 		}
 		if err := ss.AddEntry(stream, table, false, sutils.SIGNAL_EVENTS, 0, 0, nil, nil, ples); err != nil {
@@ -246,7 +243,9 @@ func execTlvSeg(line string) Result {
 		err := ss.AppendWipToSegfile(stream, b == nblocks-1, false, false)
 		ss.Lock.Unlock()
 		if err != nil {
-			return Result{Out: "flush-error:" + err.Error()}
+			// the flush of a block must not fail: the events of the block are not served afterwards
+			return Result{Out: "flush-error:" + err.Error(), Nontrivial: true, Fails: []PropFail{{Sig: "tlvseg/flush-error",
+				Msg: fmt.Sprintf("AppendWipToSegfile failed for block %d (%d events): %v", b, n, err)}}}
 		}
 	}
 	meta := tsegLastMeta
@@ -257,8 +256,23 @@ func execTlvSeg(line string) Result {
 	if err != nil {
 		return Result{Out: "bsu-error:" + err.Error()}
 	}
+	// the block summaries as the searchers see them: record counts by position, block numbers with metadata
+	var bsuRecs, bmhNums []string
+	for _, bs := range sums {
+		bsuRecs = append(bsuRecs, strconv.Itoa(int(bs.RecCount)))
+	}
+	var bn []int
+	for k := range allBmi.AllBmh {
+		bn = append(bn, int(k))
+	}
+	sort.Ints(bn)
+	for _, k := range bn {
+		bmhNums = append(bmhNums, strconv.Itoa(k))
+	}
+	bsuS := " bsu=[" + strings.Join(bsuRecs, ";") + "] bmh=[" + strings.Join(bmhNums, ";") + "]"
 	if len(sums) != nblocks {
-		return Result{Out: fmt.Sprintf("bsu-blocks:%d", len(sums))}
+		return Result{Out: "bsu-blocks:" + bsuS, Nontrivial: true, Fails: []PropFail{{Sig: "tlvseg/block-summary-count",
+			Msg: fmt.Sprintf("%d blocks were flushed, the .bsu file holds %d block summaries:%s", nblocks, len(sums), bsuS)}}}
 	}
 	allBlocks := map[uint16]struct{}{}
 	for b := 0; b < nblocks; b++ {
@@ -424,7 +438,7 @@ func execTlvSeg(line string) Result {
 		sfr.Close()
 		outs = append(outs, fmt.Sprintf("%s{size=%s blk=[%s]}", nm, sizeS, strings.Join(blkS, ";")))
 	}
-	res.Out = strings.Join(outs, " ")
+	res.Out = strings.Join(outs, " ") + bsuS
 	for t := range tags {
 		res.Tags = append(res.Tags, t)
 	}
@@ -532,7 +546,15 @@ func tsegGenCol(r *rand.Rand, shape []int, profile int, fullBias bool) string {
 	return strings.Join(blocks, "/")
 }
 
-func tsegLimit(r *rand.Rand) int {
+// profiles whose columns hold a number together with a string or bool: only with the production limit (tsegParseCol)
+func tsegNeeds501(profile int) bool { return profile == 1 || profile >= 7 }
+
+func tsegLimit(r *rand.Rand, profiles ...int) int {
+	for _, p := range profiles {
+		if tsegNeeds501(p) {
+			return 501
+		}
+	}
 	switch r.Intn(8) {
 	case 0:
 		return 1
@@ -592,7 +614,11 @@ func tsegGenLateAfterConsistent(r *rand.Rand) string {
 		}
 		blocks = append(blocks, strings.Join(vs, ","))
 	}
-	return fmt.Sprintf("tlvseg w %d %s", []int{1, 2, 2, 3, 501}[r.Intn(5)], strings.Join(blocks, "/"))
+	lim := []int{1, 2, 2, 3, 501}[r.Intn(5)]
+	if tsegNeeds501(profile) {
+		lim = 501
+	}
+	return fmt.Sprintf("tlvseg w %d %s", lim, strings.Join(blocks, "/"))
 }
 
 func genTlvSeg(r *rand.Rand, n int, tier string) []string {
@@ -607,9 +633,10 @@ func genTlvSeg(r *rand.Rand, n int, tier string) []string {
 		"tlvseg w 501 -,-/-,b1,i5/i1",
 		"tlvseg w 1 z/z,z/-,z",
 		"tlvseg w 3 -/-/-", "tlvseg w 3 -",
+		"tlvseg w 501 -,-/i1,i2/i3", "tlvseg w 501 -/-,i1 -/-,-", "tlvseg w 501 z/-/i1", "tlvseg w 501 -,-/-/z,-/s61",
 		"tlvseg w 501 f3ff0000000000000,i1/-,f8000000000000000",
 		"tlvseg w 0 i1", "tlvseg w 65536 i1", "tlvseg w 02 i1", "tlvseg w 2 i1//i2", "tlvseg w 2 i1/ i2", "tlvseg w 2 i1,i2 i1", "tlvseg w 2 i1/i2 i1",
-		"tlvseg w 2 f3ff0000000000000,s61", "tlvseg w 2 u5", "tlvseg w 2 S3:1", "tlvseg w 2 i1/i2/i3/i4/i5/i6/i7/i8/i9", "tlvseg x 2 i1", "tlvseg w 2", "tlvseg w 2 s696e66",
+		"tlvseg w 2 f3ff0000000000000,s61", "tlvseg w 2 u5", "tlvseg w 2 S3:1", "tlvseg w 2 i1/i2/i3/i4/i5/i6/i7/i8/i9", "tlvseg x 2 i1", "tlvseg w 2", "tlvseg w 2 s696e66", "tlvseg w 500 s61,i1", "tlvseg w 2 b1/i1", "tlvseg w 2 s61/z,b1", "tlvseg w 1 s616263646566,-/-,s6768696a6b6c",
 	}
 	for len(out) < n {
 		x := r.Intn(100)
@@ -618,13 +645,15 @@ func genTlvSeg(r *rand.Rand, n int, tier string) []string {
 			out = append(out, tsegGenLateAfterConsistent(r))
 		case x < 62:
 			shape := tsegShape(r)
-			out = append(out, fmt.Sprintf("tlvseg w %d %s", tsegLimit(r), tsegGenCol(r, shape, r.Intn(8), r.Intn(2) == 0)))
+			p := r.Intn(8)
+			out = append(out, fmt.Sprintf("tlvseg w %d %s", tsegLimit(r, p), tsegGenCol(r, shape, p, r.Intn(2) == 0)))
 		case x < 96:
 			shape := tsegShape(r)
-			out = append(out, fmt.Sprintf("tlvseg w %d %s %s", tsegLimit(r), tsegGenCol(r, shape, r.Intn(8), r.Intn(2) == 0), tsegGenCol(r, shape, r.Intn(8), r.Intn(2) == 0)))
+			p, q := r.Intn(8), r.Intn(8)
+			out = append(out, fmt.Sprintf("tlvseg w %d %s %s", tsegLimit(r, p, q), tsegGenCol(r, shape, p, r.Intn(2) == 0), tsegGenCol(r, shape, q, r.Intn(2) == 0)))
 		default: // malformed
 			shape := tsegShape(r)
-			l := fmt.Sprintf("tlvseg w %d %s", tsegLimit(r), tsegGenCol(r, shape, 7, false))
+			l := fmt.Sprintf("tlvseg w %d %s", tsegLimit(r, 7), tsegGenCol(r, shape, 7, false))
 			switch r.Intn(5) {
 			case 0:
 				l = strings.Replace(l, ",", ",,", 1)
